@@ -29,6 +29,47 @@ const UINTS: &[u32] = &[0, 1, 2, 3, 5, 7, 31, 32, 255, 65536, 0x8000_0000, 0xFFF
 const FLOATS: &[f32] = &[0.0, -0.0, 1.0, -1.0, 0.5, 2.0, 1.5, -2.5, 3.25, 0.1, 100.0, -1e10, 1e-10, 16777216.0, 2147483648.0, 4294967296.0, f32::MAX, f32::MIN_POSITIVE, f32::INFINITY, f32::NEG_INFINITY, f32::NAN, 0.75, 7.0];
 const HALVES: &[f32] = &[0.0, 1.0, -1.0, 0.5, 2.0, 1.5, -2.5, 3.25, 1024.0, 65504.0, 0.25];
 
+/// crafted operand rows (by parameter position) where regrouping or reordering floating point or wrapping integer
+/// arithmetic changes the result: cancellation, absorption, overflow to infinity, INT_MIN / -1, shifts by 32
+const ROWS_F: [[f32; 4]; 8] = [
+    [1e30, -1e30, 1.0, 3.0],
+    [1.0, 1e30, -1e30, 0.5],
+    [16777216.0, 1.0, -16777216.0, 1.0],
+    [1e30, 1e30, 1e-30, 2.0],
+    [1e-30, 1e-30, 1e30, -1.0],
+    [3.0, 0.1, 0.2, 0.3],
+    [-1e30, 1.0, 1e30, 7.0],
+    [0.5, 16777216.0, -16777216.0, 1e-30],
+];
+const ROWS_I: [[i32; 4]; 8] = [[i32::MAX, 1, i32::MIN, -1], [2, 3, 5, 7], [-8, 3, 2, 1], [65536, 65536, -1, 2], [i32::MIN, -1, 1, 31], [1, 32, 33, -32], [100, 7, 0, 3], [-1, -1, -1, -1]];
+
+fn sample_mode(it: &Interp, ty: ir::TypeId, mix: &mut Mix, mode: usize, position: usize) -> Result<V, String> {
+    if mode < 3 {
+        return sample(it, ty, mix, mode == 0);
+    }
+    let row = (mode - 3) % 8;
+    let m = it.m;
+    let t = m.type_registry.remove_modifier(ty);
+    Ok(match m.type_registry.get_type_layer(t) {
+        ir::TypeLayer::Scalar(s) => match irsem::scalar_kind(s) {
+            K::Int => V::Int(ROWS_I[row][position % 4]),
+            K::UInt => V::UInt(ROWS_I[row][position % 4] as u32),
+            K::Half => V::Half([1.0f32, 2048.0, -2048.0, 0.5][position % 4]),
+            K::Float => V::Float(ROWS_F[row][position % 4]),
+            K::Double => V::Double(ROWS_F[row][position % 4] as f64),
+            _ => return sample(it, ty, mix, false),
+        },
+        ir::TypeLayer::Vector(inner, n) => {
+            let mut c = Vec::new();
+            for k in 0..n {
+                c.push(sample_mode(it, inner, mix, mode, position + k as usize)?);
+            }
+            V::Vec(c)
+        }
+        _ => return sample(it, ty, mix, false),
+    })
+}
+
 fn sample(it: &Interp, ty: ir::TypeId, mix: &mut Mix, tame: bool) -> Result<V, String> {
     let m = it.m;
     let t = m.type_registry.remove_modifier(ty);
@@ -212,7 +253,7 @@ pub fn check_exec_named(source: &str, tgt: Tgt, arg_seed: u64, vectors: usize, e
             let mut ok = true;
             for p in &imp.params {
                 // an `out` parameter has no incoming value: both sides start it at zero
-                let sampled = if matches!(p.param_type.input_modifier, ir::InputModifier::Out) { it.zero(p.param_type.type_id).map_err(|e| format!("{:?}", e)) } else { sample(&it, p.param_type.type_id, &mut mix, vec_index == 0) };
+                let sampled = if matches!(p.param_type.input_modifier, ir::InputModifier::Out) { it.zero(p.param_type.type_id).map_err(|e| format!("{:?}", e)) } else { sample_mode(&it, p.param_type.type_id, &mut mix, vec_index, argv.len()) };
                 match sampled {
                     Ok(v) => argv.push(v),
                     Err(e) => {
@@ -376,7 +417,7 @@ pub fn check_record_with(r: &Value, allowed: &[Tgt], vectors: usize) -> Verdict 
         return Verdict::Skip("target not covered by this property".into());
     }
     let seed = r["arg_seed"].as_u64().unwrap_or(0);
-    check_exec(src, tgt, seed, vectors)
+    check_exec(src, tgt, seed, r["vectors"].as_u64().map(|v| v as usize).unwrap_or(vectors))
 }
 
 // ---------------------------------------------------------------------------------------------
@@ -407,7 +448,9 @@ pub fn run_common(ctx: &mut Ctx, targets: &'static [Tgt], check: fn(&Value) -> V
         let make = |i: u64| {
             let t = &trees[(i as usize) / targets.len()];
             let tgt = targets[(i as usize) % targets.len()];
-            record(&xshape::program(v, t), tgt, 0x5eed ^ i)
+            let mut r = record(&xshape::program(v, t), tgt, 0x5eed ^ i);
+            r["vectors"] = json!(11);
+            r
         };
         ctx.run_enum(&format!("exhaustive_{}op_{}_shapes", n, name), count, true, make, |i| match check(&make(i)) {
             Verdict::Pass { nontrivial, mut labels } => {
@@ -420,6 +463,34 @@ pub fn run_common(ctx: &mut Ctx, targets: &'static [Tgt], check: fn(&Value) -> V
             other => other,
         });
     }
+    // ---- exhaustive aliasing table: copy-in / copy-out of out and inout parameters when arguments alias each
+    // other or a static global the callee also touches
+    const MODES: [&str; 3] = ["", "out ", "inout "];
+    const BODY: [&str; 10] = ["a = a + 1;", "b = b * 10;", "a = a + g;", "g = g + a;", "b = a;", "a = b + g;", "g = b;", "b = b + a;", "a = 7;", "g = g * 2;"];
+    const ARGS: [&str; 3] = ["x", "y", "g"];
+    let alias_source = |i: u64| -> String {
+        let mut k = i as usize;
+        let mut take = |n: usize| {
+            let r = k % n;
+            k /= n;
+            r
+        };
+        let (m1, m2, s1, s2, a1, a2) = (take(3), take(3), take(10), take(10), take(3), take(3));
+        format!(
+            "static int g = 3;\nvoid callee({}int a, {}int b) {{\n    {}\n    {}\n}}\nint caller(int x0, int y0) {{\n    int x = x0;\n    int y = y0;\n    callee({}, {});\n    return x * 100 + y * 10 + g;\n}}\n",
+            MODES[m1], MODES[m2], BODY[s1], BODY[s2], ARGS[a1], ARGS[a2]
+        )
+    };
+    let alias_count = (3 * 3 * 10 * 10 * 3 * 3 * targets.len()) as u64;
+    let alias_make = |i: u64| record(&alias_source(i / targets.len() as u64), targets[(i as usize) % targets.len()], 0xa11a5 ^ i);
+    ctx.run_enum("exhaustive_aliasing_calls", alias_count, true, alias_make, |i| match check(&alias_make(i)) {
+        Verdict::Pass { nontrivial, mut labels } => {
+            labels.retain(|l| !l.starts_with("compared_functions"));
+            labels.push("aliasing_table".into());
+            Verdict::Pass { nontrivial, labels }
+        }
+        other => other,
+    });
     // ---- generated programs
     let prof = if msl { progen::Profile::exec_msl() } else { progen::Profile::exec_hlsl() };
     let n_t = targets.len();
